@@ -68,6 +68,59 @@ func genC08(seed uint64, tier string) *Plan {
 		seen[string(k)] = true
 		p.Keys = append(p.Keys, KeySpec{Digest: k})
 	}
+	if r.Chance(0.3) {
+		// long keys with long shared stems ("however many leading bytes they
+		// share"): 8..70 index-key bytes after the bucket bytes (32-byte and
+		// 64-byte digests, identity multihashes), every key a copy of one stem
+		// up to one of a few divergence points and random over the tiny alphabet
+		// from there on; divergence points cluster around the word and record
+		// boundaries an implementation might special-case (8, 16, 32, 33, the end)
+		L := 8 + r.Intn(63)
+		klen = bb + L
+		if klen < 12 {
+			klen = 12
+		}
+		L = klen - bb
+		p.X["klen"] = klen
+		p.X["long"] = 1
+		stem := make([]byte, klen)
+		for i := range stem {
+			stem[i] = byte(r.Intn(alpha))
+			if i < 4 && i < bb+1 {
+				stem[i] = 1
+			}
+		}
+		cands := []int{L - 1, L - 2, L - 1 - r.Intn(L), 8, 7, 9, 16, 31, 32, 33, 24, L - 8, L - 9}
+		var points []int
+		for len(points) < 1+r.Intn(3) {
+			d := cands[r.Intn(len(cands))]
+			if d >= 0 && d < L {
+				points = append(points, d)
+			}
+		}
+		p.Keys = nil
+		seen := map[string]bool{}
+		for tries := 0; len(p.Keys) < nk && tries < 400; tries++ {
+			k := append([]byte(nil), stem...)
+			d := points[r.Intn(len(points))]
+			for i := bb + d; i < klen; i++ {
+				k[i] = byte(r.Intn(alpha))
+			}
+			if r.Chance(0.5) {
+				// differ at the divergence point only
+				copy(k[bb+d+1:], stem[bb+d+1:])
+				k[bb+d] = byte(r.Intn(alpha + 2))
+			}
+			if nb > 1 && r.Chance(0.4) {
+				k[0] = 2
+			}
+			if seen[string(k)] {
+				continue
+			}
+			seen[string(k)] = true
+			p.Keys = append(p.Keys, KeySpec{Digest: k})
+		}
+	}
 	nk = len(p.Keys)
 	n := 4 + r.Intn(37)
 	for i := 0; i < n; i++ {
